@@ -1,6 +1,6 @@
 import CssVerif.Model.Normalize
 import CssVerif.Model.SheetSpec
-import CssVerif.Gen.C04Margins
+import CssVerif.Gen.C02Margins
 /-!
 Driver for C02.  One request per line:
 
@@ -379,7 +379,7 @@ def handle (line : String) : String :=
     match decToks ts with
     | some ts =>
       if !tokWF ts then "out-of-domain"
-      else jASheet true (projSheet orc CssVerif.Gen.C04.margins (parseSheet orc CssVerif.Gen.C04.margins ts))
+      else jASheet true (projSheet orc CssVerif.Gen.C02.margins (parseSheet orc CssVerif.Gen.C02.margins ts))
     | none => "bad-op"
   | "spelled" :: ws =>
     match (parseSX ws).bind sxSheet with
